@@ -53,9 +53,30 @@ type Op struct {
 	Split        []int // Create: sizes of the Write calls; SetReader: sizes the source reader returns per call
 	Paced        bool  // Create: let the storing side drain after every Write (a slow writer)
 	DefaultLevel bool  // Begin without a level argument (the documented default, ReadCommitted)
+	// IDVar: which transaction an Unknown Commit/Rollback names: 0 a well-formed id never issued, 1 the
+	// all-zero id (the store's own name for "no transaction"), 2 no transaction named at all
+	IDVar int
 }
 
+var idVarNames = [...]string{"never-issued", "all-zero-id", "no-id"}
+
 const DefaultLen = 8
+
+// kq quotes a key for messages; long keys are abbreviated.
+func kq(k string) string {
+	if len(k) > 48 {
+		return fmt.Sprintf("%q…(%d bytes)", k[:16], len(k))
+	}
+	return fmt.Sprintf("%q", k)
+}
+
+func kqs(ks []string) string {
+	out := make([]string, len(ks))
+	for i, k := range ks {
+		out[i] = kq(k)
+	}
+	return "[" + strings.Join(out, " ") + "]"
+}
 
 func (o Op) String() string {
 	a := ""
@@ -72,23 +93,26 @@ func (o Op) String() string {
 		}
 		return fmt.Sprintf("T%d=Begin(%s)", o.Actor, o.Level)
 	case Commit, Rollback, GetKeysOp:
+		if o.Actor == Unknown && o.Kind != GetKeysOp {
+			return a + o.Kind.String() + "(" + idVarNames[o.IDVar] + ")"
+		}
 		return a + o.Kind.String() + "()"
 	case GC, Reopen, Restart:
 		return o.Kind.String()
 	case Create:
 		if o.Paced {
-			return fmt.Sprintf("%sCreate(%q,%v,paced)", a, o.Key, o.Split)
+			return fmt.Sprintf("%sCreate(%s,%v,paced)", a, kq(o.Key), o.Split)
 		}
-		return fmt.Sprintf("%sCreate(%q,%v)", a, o.Key, o.Split)
+		return fmt.Sprintf("%sCreate(%s,%v)", a, kq(o.Key), o.Split)
 	case Set, SetReader:
 		if o.Kind == SetReader && len(o.Split) > 0 {
-			return fmt.Sprintf("%sSetReader(%q,reads=%v)", a, o.Key, o.Split)
+			return fmt.Sprintf("%sSetReader(%s,reads=%v)", a, kq(o.Key), o.Split)
 		}
 		if o.Len != 0 && o.Len != DefaultLen {
-			return fmt.Sprintf("%s%s(%q,len=%d)", a, o.Kind, o.Key, o.length())
+			return fmt.Sprintf("%s%s(%s,len=%d)", a, o.Kind, kq(o.Key), o.length())
 		}
 	}
-	return fmt.Sprintf("%s%s(%q)", a, o.Kind, o.Key)
+	return fmt.Sprintf("%s%s(%s)", a, o.Kind, kq(o.Key))
 }
 
 func (o Op) length() int {
@@ -202,6 +226,23 @@ func (r *Runner) store(actor int) (fs_db.Store, context.Context) {
 		return r.In.DB, imodel.StoreTxId(r.ctx, unknownTx)
 	}
 	return r.Tx[actor], r.ctx
+}
+
+// rawTx ends a transaction that no Begin of this history returned.
+func (r *Runner) rawTx(commit bool, idVar int) error {
+	if r.In.RawTx == nil {
+		if commit {
+			return fs_db.ErrTxNotFound
+		}
+		return nil
+	}
+	switch idVar {
+	case 1:
+		return r.In.RawTx(commit, imodel.MainTxId, true)
+	case 2:
+		return r.In.RawTx(commit, "", false)
+	}
+	return r.In.RawTx(commit, unknownTx, true)
 }
 
 func actorKind(m *model.Model, actor int) string {
@@ -327,7 +368,7 @@ func (r *Runner) apply(op Op) *Mismatch {
 	case Commit:
 		var err error
 		if op.Actor == Unknown {
-			err = fs_db.ErrTxNotFound // no handle exists for an unknown transaction; see external client tier
+			err = r.rawTx(true, op.IDVar)
 		} else {
 			err = r.Tx[op.Actor].Commit(r.ctx)
 		}
@@ -342,6 +383,8 @@ func (r *Runner) apply(op Op) *Mismatch {
 		var err error
 		if op.Actor != Unknown {
 			err = r.Tx[op.Actor].Rollback(r.ctx)
+		} else {
+			err = r.rawTx(false, op.IDVar)
 		}
 		exp := r.M.Rollback(modelActor(op.Actor))
 		if op.Actor >= 0 && r.Ended[op.Actor] == "" {
@@ -413,7 +456,7 @@ func (r *Runner) readKey(op Op, actor int, key string) *Mismatch {
 	exp, eerr := r.M.Get(modelActor(actor), key)
 	g := dbh.Class(err)
 	if g != eerr {
-		return r.mism(op, fmt.Sprintf("Get(%q) via %s returned %s (%s), model expects %s", key, ak, g, dbh.ShortErr(err), describeExp(exp, eerr)),
+		return r.mism(op, fmt.Sprintf("Get(%s) via %s returned %s (%s), model expects %s", kq(key), ak, g, dbh.ShortErr(err), describeExp(exp, eerr)),
 			fmt.Sprintf("seq|Get@%s|exp=%s,obs=%s", ak, expClass(eerr), g))
 	}
 	if eerr == model.OK {
@@ -425,7 +468,7 @@ func (r *Runner) readKey(op Op, actor int, key string) *Mismatch {
 			if strings.HasPrefix(w, "the value of write") {
 				word = "other-version"
 			}
-			return r.mism(op, fmt.Sprintf("Get(%q) via %s returned %s of write #%d's value — it is %s", key, ak, d, exp.ID, w),
+			return r.mism(op, fmt.Sprintf("Get(%s) via %s returned %s of write #%d's value — it is %s", kq(key), ak, d, exp.ID, w),
 				fmt.Sprintf("seq|Get@%s|exp=value,obs=%s", ak, word))
 		}
 	}
@@ -444,14 +487,14 @@ func (r *Runner) readKeyReader(op Op, actor int, key string) *Mismatch {
 	exp, eerr := r.M.Get(modelActor(actor), key)
 	g := dbh.Class(err)
 	if g != eerr {
-		return r.mism(op, fmt.Sprintf("GetReader(%q) via %s returned %s (%s), model expects %s", key, ak, g, dbh.ShortErr(err), describeExp(exp, eerr)),
+		return r.mism(op, fmt.Sprintf("GetReader(%s) via %s returned %s (%s), model expects %s", kq(key), ak, g, dbh.ShortErr(err), describeExp(exp, eerr)),
 			fmt.Sprintf("seq|GetReader@%s|exp=%s,obs=%s", ak, expClass(eerr), g))
 	}
 	if eerr == model.OK {
 		want := r.expectBytes(exp)
 		if !bytes.Equal(got, want) {
 			d := dbh.Describe(got, want)
-			return r.mism(op, fmt.Sprintf("GetReader(%q) via %s returned %s of write #%d's value", key, ak, d, exp.ID),
+			return r.mism(op, fmt.Sprintf("GetReader(%s) via %s returned %s of write #%d's value", kq(key), ak, d, exp.ID),
 				fmt.Sprintf("seq|GetReader@%s|exp=value,obs=%s", ak, wordOf(d)))
 		}
 	}
@@ -482,7 +525,7 @@ func (r *Runner) readKeys(op Op, actor int) *Mismatch {
 			case len(got) > len(exp):
 				kind = "extra-key"
 			}
-			return r.mism(op, fmt.Sprintf("GetKeys via %s returned %q, model expects %q", ak, got, exp),
+			return r.mism(op, fmt.Sprintf("GetKeys via %s returned %s, model expects %s", ak, kqs(got), kqs(exp)),
 				fmt.Sprintf("seq|GetKeys@%s|exp=keys,obs=%s", ak, kind))
 		}
 	}
